@@ -114,7 +114,7 @@ def run(v) -> None:
         if C % nb_eff and math.gcd(C, nb_eff) != 1:
             nbands = 1
         geoms.append({"N": N, "C": C, "nbins": rng.choice([2, 3, 4]), "nints": nints, "nbands": nbands, "pn": pn, "pd": pd,
-                      "kn": kn, "kd": kd, "dm": rng.choice([0.0, 0.0005, 0.001, 0.002]),
+                      "kn": kn, "kd": kd, "dm": rng.choice([0.0, 0.02, 0.05, 0.1]),      # delays up to ~20 samples at 5..8 MHz, tsamp 0.5 s
                       "gulps": [N + 5, rng.choice([7, 13, 33]), rng.choice([1, 2, 3, 50])],
                       "pulse": rng.randrange(0, pn) if (pd == 1 and kn == 0 and rng.random() < 0.5) else None})
     specs = [{"id": i, "seed": seed() * 29 + i, "geoms": geoms[i::14]} for i in range(14)]
